@@ -329,10 +329,10 @@ let run_traces (path : string) =
                (* free-running traces have no controller actions: only the monitors that do not
                   depend on "what happened while the system settled after action n" apply *)
                mon_wire c tr @ mon_C01 c tr @ mon_C02 c tr @ mon_C08 tr @ mon_C16 c tr @
-               (if !nested_cfg then [] else mon_C17 c tr) @ mon_C14 c tr @ mon_panic tr
+               (if !nested_cfg then [] else mon_C17 c tr) @ mon_C14 c tr @ mon_panic tr @ mon_rpc c tr
              else
              mon_wire c tr @ mon_C01 c tr @ mon_C02 c tr @ mon_C03 c tr @ mon_C04 c tr @ mon_C07 c tr @ mon_C08 tr @
-             mon_C10 c tr @ mon_C14 c tr @ mon_C16 c tr @ mon_C17 c tr @ mon_C18 tr @ mon_panic tr @ mon_tables c tr @ mon_ctable c tr @ mon_negotiate c tr @ mon_overrun c tr @ mon_pipe c tr @ mon_registry c !keys_cfg tr in
+             mon_C10 c tr @ mon_C14 c tr @ mon_C16 c tr @ mon_C17 c tr @ mon_C18 tr @ mon_panic tr @ mon_tables c tr @ mon_ctable c tr @ mon_negotiate c tr @ mon_overrun c tr @ mon_pipe c tr @ mon_registry c !keys_cfg tr @ mon_rpc c tr in
            let status = (match split ' ' rest with _ :: st :: _ -> st | _ -> "?") in
            Printf.printf "T %s %s %d %s\n" !name status !nev (String.concat " " (List.map string_of_fail fails))
          | _ -> ()
